@@ -453,6 +453,7 @@ func (f *frame) zeroStruct(ref string, S types.Type, st *State) {
 			if isMutex(ft) {
 				// exclusive access to a freshly allocated, unshared object
 				e.setHeap(st, "EXCL", "(Array Int Bool)", "(store "+e.H(st, "EXCL", "(Array Int Bool)")+" "+sub+" true)")
+				e.setHeap(st, "HELD", "(Array Int Bool)", "(store "+e.H(st, "HELD", "(Array Int Bool)")+" "+sub+" false)")
 				continue
 			}
 			f.zeroStruct(sub, ft, st)
@@ -1051,6 +1052,9 @@ func (f *frame) localsAt(b *ssa.BasicBlock, env *specEnv) {
 				if _, isParam := dr.X.(*ssa.Parameter); isParam {
 					continue
 				}
+				if _, isCell := env.cells[id.Name]; isCell {
+					continue // a captured variable: its name denotes the cell's value in the state of use
+				}
 				if _, exists := env.vars[id.Name]; exists {
 					if _, isPhi := dr.X.(*ssa.Phi); !isPhi {
 						// keep parameters and phis bound by name; otherwise the later definition wins
@@ -1160,7 +1164,7 @@ func (f *frame) frameCandidates(changed []string) []string {
 	e := f.e
 	var out []string
 	for _, name := range changed {
-		if strings.HasPrefix(name, "*") || name == "W" || name == "EXCL" || strings.HasPrefix(name, "VIS_") || strings.HasPrefix(name, "LAST") || strings.HasPrefix(name, "CALLED_") || strings.HasPrefix(name, "COUNT_") || strings.HasPrefix(name, "ARGS_") {
+		if strings.HasPrefix(name, "*") || name == "W" || name == "EXCL" || name == "HELD" || strings.HasPrefix(name, "VIS_") || strings.HasPrefix(name, "LAST") || strings.HasPrefix(name, "CALLED_") || strings.HasPrefix(name, "COUNT_") || strings.HasPrefix(name, "ARGS_") {
 			continue
 		}
 		if !strings.HasPrefix(e.heapSort[name], "(Array Int ") || changedClass(changed, e.class(name)) {
